@@ -19,6 +19,7 @@ import Hdl21Model.Drv.ExportWF
 import Hdl21Model.Drv.ConnTypes
 import Hdl21Model.Drv.ExportNames
 import Hdl21Model.Drv.InstBundle
+import Hdl21Model.Drv.ArrayPass
 open Lean
 
 /-- Line protocol: one JSON object per input line `{"prop": "C03", "op": ..., ...}`,
@@ -48,6 +49,7 @@ def dispatch (j : Json) : Except String Json := do
   | "CT" => Hdl21.Drv.ConnTypes.handle op j
   | "EN" => Hdl21.Drv.ExportNames.handle op j
   | "IB" => Hdl21.Drv.InstBundle.handle op j
+  | "AP" => Hdl21.Drv.ArrayPass.handle op j
   | "SEM" => Hdl21.Drv.Sem.handle op j
   | _ => .error s!"unknown prop {prop}"
 
